@@ -192,8 +192,6 @@ def ifworld2():
 
 KNOWN = [
  # id, gate(s), title, query, variables, world
- ("KF-C01-11", "op.variableDefaults", "client-declared variable default is lost when no value is supplied",
-  'query($p: String = "zz") { getHumans { name(prefix: $p) } }', {}, None),
  ("KF-C01-12", "op.variableNamedId", "a client variable named id collides with the stitched $id of child steps",
   'query($id: String) { getAnimals { owner { name(prefix: $id) } } }', {"id": "pp"}, None),
  ("KF-C01-14", "op.aliasIsHelperName", "a field aliased as id/__typename conflicts with the stitching helper of the same key",
@@ -371,6 +369,8 @@ CASES["regress/KF-C17-1.json"] = {"property": "C17", "signature": "payload-misma
     "subs": [{"conn": 0, "id": "s1", "op": _SUBOP, "field": "animalAdded"}, {"conn": 0, "id": "s2", "op": _SUBOP, "field": "animalAdded"}],
     "events": [{"sub": 0, "value": {"__type": "Animal", "name": "rex", "owner": "Human_1"}}, {"sub": 1, "value": {"__type": "Animal", "name": "tom", "owner": "Human_2"}}]}}
 CASES["regress/KF-C01-10.json"] = exec_case("C01", "gateway-errors", 'query($s: Boolean!) { getHumans { name @skip(if: $s) phone @include(if: $s) } }', {"s": False})
+CASES["regress/KF-C01-11.json"] = exec_case("C01", "data-mismatch", 'query($p: String = "zz") { getHumans { name(prefix: $p) } }', {})
+CASES["regress/KF-C01-11b.json"] = exec_case("C01", "data-mismatch", 'query($n: Int! = 2, $m: Int = 7) { a: count(min: $n, max: $m) getAnimals { owner { name(prefix: "q") } } }', {"m": None})
 CASES["regress/KF-C01-31.json"] = exec_case("C01", "data-mismatch", '{ a: getAnimals { owner { ...F } } b: getHuman { ...F } } fragment F on Human { best { phone } }')
 
 if __name__ == "__main__":
